@@ -477,6 +477,18 @@ class CFG(object):
             cur = prev[cur]
         return path[::-1]
 
+    def cycle_through(self, n, avoid=()):
+        """A path n -> ... -> n (length >= 1) avoiding `avoid`, or None."""
+        for m in self.g.successors(n):
+            if self.g[n][m]["kind"] == "exc" or m in avoid:
+                continue
+            if m == n:
+                return [n, n]
+            p = self.path_avoiding(m, n, avoid)
+            if p is not None:
+                return [n] + p
+        return None
+
     def describe(self, n):
         d = self.g.nodes[n]
         node = d["ast"]
